@@ -70,6 +70,7 @@ func init() {
 
 func runC03(c *Ctx) {
 	routerSegIDWriteBack(c, "R5-router-writes-segid-back")
+	c03DecodedPathOwnsBytes(c)
 	sp := "pkg/slayers/path/scion."
 	if v := c.View("(*" + sp + "Decoded).Reverse"); v != nil {
 		rule := "R1-reverse"
